@@ -20,8 +20,9 @@ EXPLANATION = (
     "of row b is its mirror, for a must-link pair the negation, the rows are the positions of the two samples in the recorded "
     "batch, guarded by both being present, and no other row of the gradient is written; (c) validation wiring: both lists go "
     "through the same shape (2-D, >= 2 columns, integers) and self-pair checks, the contradiction check runs iff both are "
-    "non-empty, all before the model is decorated. Not decided: correctness of the breadth-first component search beyond "
-    "its index spaces.")
+    "non-empty, all before the model is decorated; the contradiction test looks at both orientations of a pair (also when written as a lookup in a set of "
+    "itertools.combinations); (d) the component search starts every breadth-first search from a node that no earlier search reached (worklist idiom accepted, a "
+    "counter advanced by the component sizes is a violation, any other form is undecided). Not decided: csgraph.breadth_first_order itself (trusted).")
 ASSUMPTIONS = ["scipy.sparse.csgraph.breadth_first_order returns node ids of the given adjacency matrix", "check_array(ensure_2d, ensure_min_features=2, dtype=int)"]
 ADOPT = [("C10", ["C10-e"], "the extra gradient is placed with the indices recorded by the decorated _batchify: they must be those of the batch being trained on")]
 
